@@ -243,6 +243,32 @@ def main(run):
             if r:
                 sweep_fails.append(r)
         run.nontriv(("very-long", k, n))
+    # ---- exact law of the overwritten slot (float draws pinned, integer / bit draws enumerated with exact weights): 1/k each,
+    # compared with == ; a slot bias of any size in the index draw is a deterministic finding here
+    from fractions import Fraction
+    from ..exactlaw import replaced_slot_law, Budget
+    for k in [k_ for k_ in (list(range(1, 13)) + ([100, 127] if thorough else [33])) if k_ % nsh == sh % nsh]:
+        for c in (0.5, 0.9):
+            try:
+                law, runs_x = replaced_slot_law(lambda: UniformReservoirStorage(size=k, store_targets=False), k, c)
+            except (Budget, NotImplementedError):
+                run.count("exact-law-budget-exceeded")
+                continue
+            if set(law) == {"no-replacement"}:
+                run.count("slot-law-no-replacement-within-horizon")
+                continue
+            from ..exactlaw import UNRESOLVED
+            un_ = law.pop(UNRESOLVED, 0)
+            if float(un_) > 1e-10:
+                run.count("exact-law-budget-exceeded")
+                continue
+            run.ok(kind="exact-slot-law")
+            run.count("exact-law-executions", runs_x)
+            if set(law) != set(range(k)) or any(abs(q_ - Fraction(1, k)) > un_ for q_ in law.values()):
+                run.violation("slot-law", f"k={k} (float draws pinned to {c}): the overwritten slot has the exact law "
+                                          f"{ {str(o): str(q) for o, q in sorted(law.items(), key=lambda kv: str(kv[0]))[:8]} }, expected 1/{k} for each of the {k} slots",
+                              {"k": k, "pinned_float": c})
+            run.nontriv(("slot-law", k, c))
     run.count("cell-tests", ct.done + lct.done)
     for msg in sweep_fails[:3]:
         run.violation("inclusion-law", msg, {"size_sweep_or_long_stream": True, "runs": runs})
